@@ -145,54 +145,66 @@ def listMax : List Nat → Nat
   | [] => 0
   | x :: r => max x (listMax r)
 
+/-- Block size the multithreaded encoder will use (`mt_options.block_size`): --block-size, or the largest
+    recommendation of the chains capped by the largest --block-list entry. `none` = some chain is unsupported. -/
+def mtBlockSizeFor (c : Config) : Option Nat :=
+  if c.blockSize ≠ 0 then some c.blockSize
+  else
+    match maxOpt (c.chains.map fun (_, fs) => mtBlockSize fs) with
+    | none => none
+    | some m => some (if c.blockListLargest > 0 ∧ m > c.blockListLargest then c.blockListLargest else m)
+
+def isMtPath (c : Config) : Bool := c.mode = .compress && c.format = .xz && c.isMt
+
+/-- The memory usage of given settings as `get_chains_memusage` computes it (UINT64_MAX as a number). -/
+def usageOf (b : Build) (mt : Bool) (threads bs : Nat) (chains : List (Nat × List Filter)) : Nat :=
+  if mt then (maxOpt (mtUsages b threads bs chains)).getD UINT64_MAX
+  else listMax ((stUsages b chains).map (·.getD UINT64_MAX))
+
+/-- Step 4: shrink dictionaries in single-threaded mode (`usage` = current maximum, `us` = `encoder_memusages[]`). -/
+def stageAdjust (b : Build) (c : Config) (limit : Nat) (threads : Nat) (us : List Nat) (usage : Nat) (msgs : List String) : Outcome :=
+  if usage ≤ limit then .ok threads false c.chains usage limit false msgs
+  else if !c.autoAdjust then .fatal "too-small" usage
+  else
+    match adjustChains b limit c.chains us with
+    | .error shown => .fatal "too-small" shown
+    | .ok (cs, us', ms) => .ok threads false cs (listMax us') limit false (msgs ++ ms)
+
+/-- Steps 1–3 for multithreaded .xz compression. -/
+def stageMt (b : Build) (c : Config) (bs limit : Nat) : Outcome :=
+  match reduceThreads b bs c.chains limit c.threads with
+  | .inl (some (t, u)) => .ok t true c.chains u limit false [s!"R{c.threads}>{t}"]
+  | .inl none => .fatal "bug" 0
+  | .inr u1 =>
+    if mtencIsDefault c then .ok 1 true c.chains u1 limit true [s!"C{c.threads}>1"]
+    else if !c.autoAdjust then .fatal "too-small" u1
+    else
+      let us := (stUsages b c.chains).map (·.getD UINT64_MAX)
+      stageAdjust b c limit 1 us (listMax us) ["S"]
+
 /-- `coder_set_compression_settings()` from "Get memory limit and the memory usage of the used filter chains" on. -/
 def coderSetCompressionSettings (b : Build) (c : Config) : Outcome :=
-  let limit0 := memlimitGet c
-  let mtPath := c.mode = .compress ∧ c.format = .xz ∧ c.isMt
-  -- Block size of the multithreaded encoder
-  let bsRes : Except Unit Nat :=
-    if !mtPath then .ok 0
-    else if c.blockSize ≠ 0 then .ok c.blockSize
-    else
-      match maxOpt (c.chains.map fun (_, fs) => mtBlockSize fs) with
-      | none => .error ()
-      | some m => .ok (if c.blockListLargest > 0 ∧ m > c.blockListLargest then c.blockListLargest else m)
-  match bsRes with
-  | .error _ => .fatal "unsupported-options" 0
-  | .ok bs =>
-    let limit := if mtPath then mtencGet c else limit0
+  if isMtPath c then
+    match mtBlockSizeFor c with
+    | none => .fatal "unsupported-options" 0
+    | some bs =>
+      let limit := mtencGet c
+      match maxOpt (mtUsages b c.threads bs c.chains) with
+      | none => .fatal "unsupported-chain" 0
+      | some usage0 =>
+        if usage0 ≤ limit then .ok c.threads true c.chains usage0 limit false []
+        else stageMt b c bs limit
+  else
+    let limit := memlimitGet c
     let usages0 : List (Option Nat) :=
-      if c.mode = .compress then (if mtPath then mtUsages b c.threads bs c.chains else stUsages b c.chains)
-      else [rawDecoderMemusage b ((c.chains.headD (0, [])).2)]
+      if c.mode = .compress then stUsages b c.chains else [rawDecoderMemusage b ((c.chains.headD (0, [])).2)]
     match maxOpt usages0 with
     | none => .fatal "unsupported-chain" 0
     | some usage0 =>
-      if usage0 ≤ limit then .ok c.threads mtPath c.chains usage0 limit false []
+      if usage0 ≤ limit then .ok c.threads false c.chains usage0 limit false []
       else if c.format = .raw then .fatal "too-small" usage0
       else if c.mode ≠ .compress then .fatal "too-small" usage0
-      else
-        -- multithreaded: fewer threads first
-        let afterMt : Outcome ⊕ (List Nat × Nat × List String) :=
-          if mtPath then
-            match reduceThreads b bs c.chains limit c.threads with
-            | .inl (some (t, u)) => .inl (.ok t true c.chains u limit false [s!"R{c.threads}>{t}"])
-            | .inl none => .inl (.fatal "bug" 0)
-            | .inr u1 =>
-              if mtencIsDefault c then .inl (.ok 1 true c.chains u1 limit true [s!"C{c.threads}>1"])
-              else if !c.autoAdjust then .inl (.fatal "too-small" u1)
-              else
-                let us := (stUsages b c.chains).map (·.getD UINT64_MAX)
-                .inr (us, listMax us, ["S"])
-          else .inr (usages0.map (·.getD UINT64_MAX), usage0, [])
-        match afterMt with
-        | .inl o => o
-        | .inr (us, usage, msgs) =>
-          if usage ≤ limit then .ok 1 false c.chains usage limit false msgs
-          else if !c.autoAdjust then .fatal "too-small" usage
-          else
-            match adjustChains b limit c.chains us with
-            | .error shown => .fatal "too-small" shown
-            | .ok (cs, us', ms) => .ok (if mtPath then 1 else c.threads) false cs (listMax us') limit false (msgs ++ ms)
+      else stageAdjust b c limit c.threads (usages0.map (·.getD UINT64_MAX)) usage0 []
 
 /-! ## Line protocol:  xzadj <c|d> <xz|lzma|raw> <threads> <isMt> <auto> <mlc> <mld> <mtdef> <adjust> <bs> <bll> <slot>=<chain> … -/
 
@@ -243,11 +255,8 @@ def runLine (b : Build) (ws : List String) : String :=
       -- the initial usage (what `message_mem_needed(V_DEBUG, …)` prints) is reported as well
       let u0 : Option Nat :=
         if c.mode = .compress then
-          (if c.format = .xz ∧ c.isMt then
-             let bs' := if c.blockSize ≠ 0 then some c.blockSize else
-               (maxOpt (c.chains.map fun (_, fs) => mtBlockSize fs)).map fun m =>
-                 if c.blockListLargest > 0 ∧ m > c.blockListLargest then c.blockListLargest else m
-             match bs' with
+          (if isMtPath c then
+             match mtBlockSizeFor c with
              | none => none
              | some bs' => maxOpt (mtUsages b c.threads bs' c.chains)
            else maxOpt (stUsages b c.chains))
